@@ -19,3 +19,5 @@ def run(ctx):
     port.prt4(ctx)
     port.sh5(ctx)
     port.prt5(ctx)
+    from ..rules import immut
+    immut.im13(ctx, only_stale=True)     # `port` / `host_port_subcomponent` read the scheme: a URL with another scheme never inherits them from a cache
